@@ -235,6 +235,44 @@ theorem manifest_idempotent (thin : Bool) (scan scan' : List ScanObj) (fetch fet
         exact ((manifest_write_atomic thin fetch.isEmpty fs dir text' chunks hc 0).2.2 hne).1
     simp [updateOps, hread]
 
+/-- **regeneration describes the package as it is now**: whatever Manifest was there to begin with and
+whatever states the package went through before (files replaced by others of the same size, entries added
+or dropped, …), after regenerating for the current state the Manifest is exactly the text of the current
+state, and it parses back to exactly the current files' sizes and checksums: no entry of an earlier state
+survives. -/
+theorem manifest_regen_describes_current (thin : Bool) (dir : Str) (fs : Fs)
+    (hist : List (List ScanObj × List Fetchable)) (scan : List ScanObj) (fetch : List Fetchable)
+    (hd : Dom scan fetch) (hne : thin = false ∨ fetch ≠ []) :
+    ∃ text r, manifestText thin scan fetch = some text ∧
+      (regen thin dir fs (hist ++ [(scan, fetch)])).read (targetName dir (tag "Manifest")) = some text ∧
+      parseManifest text = some r ∧
+      r.dist.Perm (expected thin scan fetch).dist ∧ r.aux.Perm (expected thin scan fetch).aux ∧
+      r.ebuild.Perm (expected thin scan fetch).ebuild ∧ r.misc.Perm (expected thin scan fetch).misc := by
+  obtain ⟨text, r, ht, hp, h1, h2, h3, h4⟩ := manifest_parse_render thin scan fetch hd
+  refine ⟨text, r, ht, ?_, hp, h1, h2, h3, h4⟩
+  have hn : (thin && fetch.isEmpty) = false := by
+    rcases hne with h | h
+    · simp [h]
+    · cases fetch <;> simp_all
+  simp only [regen, List.foldl_append, List.foldl_cons, List.foldl_nil, regenStep, ht]
+  generalize List.foldl (regenStep thin dir) fs hist = fs0
+  by_cases h2 : fs0.read (targetName dir (tag "Manifest")) = some text
+  · simp [updateOps, h2, run]
+  · have hops : updateOps thin fetch.isEmpty (fs0.read (targetName dir (tag "Manifest"))) text dir [text] ≠ [] := by
+      simp [updateOps, hn, h2, writeOps]
+    exact ((manifest_write_atomic thin fetch.isEmpty fs0 dir text [text] (by simp) 0).2.2 hops).1
+
+/-- **no dependence on the past**: two package directories that are in the same state now carry the same
+Manifest after regeneration, whatever their earlier states and earlier Manifests were -/
+theorem manifest_regen_history_independent (thin : Bool) (dir : Str) (fs fs' : Fs)
+    (hist hist' : List (List ScanObj × List Fetchable)) (scan : List ScanObj) (fetch : List Fetchable)
+    (hd : Dom scan fetch) (hne : thin = false ∨ fetch ≠ []) :
+    (regen thin dir fs (hist ++ [(scan, fetch)])).read (targetName dir (tag "Manifest")) =
+      (regen thin dir fs' (hist' ++ [(scan, fetch)])).read (targetName dir (tag "Manifest")) := by
+  obtain ⟨t, _, ht, h, _⟩ := manifest_regen_describes_current thin dir fs hist scan fetch hd hne
+  obtain ⟨t', _, ht', h', _⟩ := manifest_regen_describes_current thin dir fs' hist' scan fetch hd hne
+  rw [h, h', Option.some.inj (ht.symm.trans ht')]
+
 /-- the write as it was before the fix (`open(path, "w")`; `write`) is not atomic: after its first
 operation the Manifest is empty — neither the old nor the new file -/
 theorem manifest_inplace_write_counterexample :
@@ -263,6 +301,11 @@ def exampleFetch : List Fetchable := [⟨"p.tgz".toList, ⟨10, []⟩⟩]
 
 example : manifestText false exampleScan exampleFetch = some
     ("AUX s/b 0\nDIST p.tgz 10\nEBUILD p-1.ebuild 7 MD5 00000000000000000000000000000005\nMISC m.xml 4\n").toList := by decide
+
+/-- a history in which a covered file is replaced by other content of the same size: the stale checksum is gone -/
+example : (regen false "/p".toList [("/p/Manifest".toList, "EBUILD p-1.ebuild 7 MD5 00000000000000000000000000000004\n".toList)]
+      [([⟨"/p-1.ebuild".toList, true, ⟨7, [("md5".toList, 4)]⟩⟩], []), ([⟨"/p-1.ebuild".toList, true, ⟨7, [("md5".toList, 5)]⟩⟩], [])]).read
+        "/p/Manifest".toList = some "EBUILD p-1.ebuild 7 MD5 00000000000000000000000000000005\n".toList := by decide
 
 example : Dom exampleScan exampleFetch := by
   refine ⟨by decide, ?_, ?_, ?_, by decide, ?_⟩
